@@ -100,9 +100,9 @@ CHECKS['C06'] = (
     'the source); the memoiser state machine returns the pure value along every schedule (induction) + differential execution against memo.py and a '
     'reference process with memoisation off',
     'Proof (on the model): makeKey_valid_all_shapes (complete enumeration, kernel-evaluated), key_iff_same_binding, memo_refines_pure (any number of threads, '
-    'any interleaving of lookup/compute/store micro-steps and cache toggles). Tie: model key = unpickled real key = inspect.signature.bind for every shape '
-    '(exhaustive); random sequences with toggles, scrambling of returned objects and 1..16 threads against a forked reference process. Partial: aliasing '
-    '(pickle copies) and real thread scheduling are runtime behaviour the pure model cannot exhibit; they are covered by the runs only.',
+    'any interleaving of lookup/compute/store micro-steps and cache toggles); memo_isolated_from_caller_mutation: results as objects the caller may overwrite at any time (BSEModel/MemoHeap.lean), the shape of BSEMemoize.__call__ (what a miss files, what a hit returns, the two by-passes) regenerated from memo.py, call_shape_is_good; live_store_leaks shows the model tells a memoiser that files the object itself. Tie: model key = unpickled real key = inspect.signature.bind for every shape '
+    '(exhaustive); random sequences with toggles, scrambling of returned objects and 1..16 threads against a forked reference process. Partial: that pickle.loads(pickle.dumps(x)) '
+    'is a faithful deep copy, and real thread scheduling, are runtime behaviour the model cannot exhibit; they are covered by the runs only.',
     BASE_NOTE + 'GIL atomicity of dict operations; pickle.', '6/C06')
 
 CHECKS['C12'] = (
